@@ -235,6 +235,20 @@ fn check_winsor(word: &[u8], alpha: &[X], ctx: &mut Ctx) {
     check_winsor_x("winsorize", word, x, ctx)
 }
 
+/// narrow integer element types at magnitude: each value fits an i32, their sum (and their squares) do not -
+/// every accumulation has to happen in f64
+fn narrow_alpha() -> Vec<X> {
+    vec![None, Some(1.0), Some(3.0), Some(1_400_000_000.0), Some(-1_400_000_000.0), Some(2_000_000_000.0)]
+}
+fn winsor_narrow(max_len: usize, ctx: &mut Ctx) {
+    let alpha = narrow_alpha();
+    for w in all_words_upto(alpha.len(), max_len) {
+        ctx.states += 1;
+        ctx.transitions += 1;
+        check_winsor_x("winsorize-narrow", &w, decode(&w, &alpha), ctx);
+    }
+}
+
 /// long series for the order-statistic based bounds (17..=64 elements, see C12 `order-long`)
 fn winsor_long(thorough: bool, ctx: &mut Ctx) {
     let lens: Vec<usize> = if thorough { vec![17, 18, 24, 33, 64] } else { vec![17, 24] };
@@ -264,7 +278,10 @@ fn check_winsor_x(fam: &str, word: &[u8], x: Vec<X>, ctx: &mut Ctx) {
         ctx.nontrivial(fam, mix(hash_bytes(word), hash_u64s(&x.iter().map(|v| v.map_or(7, |a| a.to_bits())).collect::<Vec<_>>())));
     }
     type W = fn(&[X], u8, Option<f64>) -> Option<Outcome<Result<Vec<Cell>, ()>>>;
-    for (tname, run) in [("f64", winsorize::<f64> as W), ("Option<f64>", winsorize::<Option<f64>> as W), ("i32", winsorize::<i32> as W)] {
+    for (tname, run) in [("f64", winsorize::<f64> as W), ("Option<f64>", winsorize::<Option<f64>> as W), ("i32", winsorize::<i32> as W), ("Option<i32>", winsorize::<Option<i32>> as W), ("i64", winsorize::<i64> as W)] {
+        if fam == "winsorize-narrow" && !tname.contains("i32") {
+            continue;
+        }
         for (method, params) in [(0u8, vec![0.0, 0.01, 0.1, 0.25, 0.5]), (1, vec![0.0, 0.5, 1.0, 3.0]), (2, vec![0.0, 0.5, 1.0, 3.0])] {
             for p in params {
                 let got = match run(&x, method, Some(p)) {
@@ -284,7 +301,9 @@ fn check_winsor_x(fam: &str, word: &[u8], x: Vec<X>, ctx: &mut Ctx) {
                                     (None, _) => g.is_null(),
                                     (Some(v), None) => g.num() == Some(*v),
                                     (Some(v), Some((lo, hi))) => {
-                                        let tol = 1e-9 * (1.0 + lo.abs().max(hi.abs()));
+                                        // bounds are interpolated / averaged from the data: their rounding is relative to the data's magnitude
+                                        let xmax = x.iter().flatten().fold(0.0f64, |m, a| m.max(a.abs()));
+                                        let tol = 1e-9 * (1.0 + lo.abs().max(hi.abs()).max(xmax));
                                         match g.num() {
                                             None => false,
                                             Some(g) => {
@@ -474,6 +493,7 @@ fn main() {
         let word = syms_from_json(&case["word"]);
         match case["family"].as_str().unwrap_or("") {
             "winsorize" => check_winsor(&word, &wz.alpha, &mut ctx),
+            "winsorize-narrow" => check_winsor_x("winsorize-narrow", &word, decode(&word, &narrow_alpha()), &mut ctx),
             "winsorize-long" => check_winsor_x("winsorize-long", &[], word_from_json(&case["series"]), &mut ctx),
             "spearman" => check_spearman(&word, &sp.alpha, &mut ctx),
             _ => {
@@ -492,6 +512,7 @@ fn main() {
     total.merge(explore_tree(&wz, run.threads));
     total.merge(explore_tree(&sp, run.threads));
     winsor_long(!run.quick(), &mut total);
+    winsor_narrow(run.pick(4, 5), &mut total);
     watch.done.store(true, AO::SeqCst);
     total.sample(json!({"op": "half_life", "series": "ramp 0..40", "min_periods": 1, "model": 39}));
     let meta = Meta {
